@@ -102,6 +102,38 @@ def logZ (Lx Ly Lz : Nat) : List Op :=
 /-- `get_deformation(location, deformation_name, **kwargs)` -/
 def getDeformation (name : String) (loc : Coord) : Option PauliMap := Rhombic.getDeformation name loc
 
+/-! ### an explicit family of `n − k` independent generators
+
+The family of the theorem `generators_independent` / `valid_code` (proved independent for every size
+`Lx, Ly ≥ 2` in `Proofs/LatRhombicPlanarCodeRank*.lean`; also evaluated on the implementation's
+parity-check matrix by the correspondence stream `rank-family`): all cubes; all triangles of axis 3
+and 2; the axis-1 triangles of the row `y = 2Ly−2`; the axis-0 triangles of the column `x = 2Lx−2`
+and, in the other columns, those with `(x+y+z) % 4 = 2`, `z ≥ 2`. -/
+
+def selCubes (Lx Ly Lz : Nat) : List Coord :=
+  grid3 (pyRange2 1 (2*Lx)) (rangeM1 (2*Ly)) (pyRange2 1 (2*Lz-1)) (fun x y z => (x + y + z) % 4 == 1)
+
+/-- vertices of the selected triangles of axis 3, 2, 1 -/
+def sel3 (Lx Ly Lz : Nat) : List Coord :=
+  grid3 (pyRange2 2 (2*Lx)) (pyRange2 0 (2*Ly-2)) (pyRange2 0 (2*Lz)) allTrue
+def sel2 (Lx Ly Lz : Nat) : List Coord :=
+  grid3 (pyRange2 2 (2*Lx)) (pyRange2 2 (2*Ly)) (pyRange2 0 (2*Lz)) allTrue
+def sel1 (Lx Ly Lz : Nat) : List Coord :=
+  grid3 (pyRange2 2 (2*Lx)) (pyRange2 (2*Ly-2) (2*Ly)) (pyRange2 0 (2*Lz)) allTrue
+/-- axis 0, last column -/
+def sel0a (Lx Ly Lz : Nat) : List Coord :=
+  grid3 (pyRange2 (2*Lx-2) (2*Lx)) (pyRange2 0 (2*Ly-2)) (pyRange2 0 (2*Lz)) allTrue
+/-- axis 0, other columns: the upper of the two triangles pointing into the same uncoloured cube -/
+def sel0b (Lx Ly Lz : Nat) : List Coord :=
+  grid3 (pyRange2 2 (2*Lx-2)) (pyRange2 0 (2*Ly-2)) (pyRange2 2 (2*Lz)) (fun x y z => (x + y + z) % 4 == 2)
+
+def selStabs (Lx Ly Lz : Nat) : List Coord :=
+  selCubes Lx Ly Lz ++
+    ((sel3 Lx Ly Lz).map (fun c => (3 : Int) :: c) ++
+      ((sel2 Lx Ly Lz).map (fun c => (2 : Int) :: c) ++
+        ((sel1 Lx Ly Lz).map (fun c => (1 : Int) :: c) ++
+          (sel0a Lx Ly Lz ++ sel0b Lx Ly Lz).map (fun c => (0 : Int) :: c))))
+
 def lattice (Lx Ly Lz : Nat) : Lattice :=
   { qubits := qubits Lx Ly Lz, stabs := stabs Lx Ly Lz, getStab := getStab Lx Ly Lz,
     logX := logX Lx Ly Lz, logZ := logZ Lx Ly Lz }
